@@ -226,13 +226,14 @@ def check_estimate(case):
     result = worlds.run_world(world)
     kinds = sorted(set(result["kinds"]))
     if not result["ok"]:
-        raise Violation(f"estimate:world-refused:{result.get('stage')}", f"{result.get('error')} kinds={kinds}")
+        # that the library signs and finalizes every generated world is C10's property (and reported there): here a refused world has no weight to compare
+        return Outcome(False, (f"world-refused:{result.get('stage')}",))
     if result["estimated_weight"] is None:
-        raise Violation("estimate:no-estimate-for-a-signable-world", f"{result.get('estimate_error')} kinds={kinds}")
+        return Outcome(False, ("no-estimate: " + str(result.get("estimate_error")).split(":")[0][:40],))  # nothing estimated, nothing that can be below the signed weight
     t, weight = _actual(result)
     est = result["estimated_weight"]
     if est < weight:
-        raise Violation(f"estimate:below-actual:{'+'.join(kinds)}"[:120], f"estimate {est} < signed weight {weight}; kinds={result['kinds']}")
+        raise Violation("estimate:below-actual", f"estimate {est} < signed weight {weight}; kinds={result['kinds']}")
     # the library's own numbers for the same objects
     unsigned = Psbt.b64decode(result["unsigned_psbt_b64"])
     final = Psbt.b64decode(result["finalized_psbt_b64"])
@@ -241,9 +242,9 @@ def check_estimate(case):
         raise Violation("estimate:signed-tx-weight-vs-model", f"{signed_tx.weight}/{signed_tx.vsize} model {weight}")
     try:
         final_est = final.weight_estimate()
-    except LIBEXC as e:
-        raise Violation("estimate:finalized-psbt-has-no-estimate", f"{type(e).__name__}: {e}")
-    if final_est < weight:
+    except LIBEXC:
+        final_est = None  # the property speaks of the unsigned psbt: whether a finalized one is estimated at all is not asked
+    if final_est is not None and final_est < weight:
         raise Violation("estimate:finalized-estimate-below-actual", f"{final_est} < {weight} kinds={result['kinds']}")
     simple = all(i.get("sizer") is None for i in world["inputs"])
     if simple:
@@ -344,7 +345,7 @@ def check_funding(case):
     # pass 1: the library's estimate of the payment-only psbt (Psbt.from_tx path); amounts do not enter a size
     base = worlds.run_world({**world0, "stop_after": "estimate"})
     if not base["ok"] or base["estimated_weight"] is None:
-        raise Violation(f"funding:base-world-refused:{base.get('stage')}", f"{base.get('error') or base.get('estimate_error')} kinds={kinds}")
+        return Outcome(False, (f"base-world-refused:{base.get('stage') or 'estimate'}",))  # C10's to report; nothing to fund
     w0 = base["estimated_weight"]
     world, remainder = _steer(case, w0, total_in)
     change = case["change"]
@@ -360,24 +361,33 @@ def check_funding(case):
         dust = dust_model(spk, dust_kvb)
         if remainder - fee1 >= dust:
             expect = ("change", fee1, remainder - fee1)
+    plain = ("nochange", remainder, 0) if remainder >= fee0 else ("refuse", None, None)
     if expect is None:
-        expect = ("nochange", remainder, 0) if remainder >= fee0 else ("refuse", None, None)
+        expect = plain
+    # the decisions the property allows besides the documented one: exactly on the threshold a change worth `dust` may be made or folded into the fee
+    # (the docstrings say ">= " in one place and "more than" in another), and a change script whose threshold is zero (an OP_RETURN, a zero dust rate)
+    # may be paid, skipped or refused
+    allowed = {expect}
+    if expect[0] == "change" and (expect[2] == dust or dust == 0):
+        allowed.add(plain)
+    if expect[0] == "change" and dust == 0:
+        allowed.add(("refuse", None, None))
     funded_world = {**world, "funding": {"sats_per_kvbyte": kvb, "dust_sats_per_kvbyte": dust_kvb, "change_script": change}}
     # SIGHASH_SINGLE of a taproot input needs its own output: a change output may provide it, nothing is lost by keeping P2
     result = worlds.run_world(funded_world)
     tags = [f"expect={expect[0]}", f"target={case['target']}", f"change-script={'none' if change is None else ('segwit' if is_witness_program(bytes.fromhex(change)) else 'other')}", f"rate={'0' if kvb == 0 else ('<1sat/vb' if kvb < 1000 else ('frac' if kvb % 1000 else 'int'))}"]
-    near = case["target"] in ("dust", "fee") and abs(case["delta"]) <= 2
+    near = any(abs(remainder - thr) <= 2 for thr in ([fee0] + ([fee1 + dust] if change is not None else [])))  # from the numbers, not from what the recipe aimed at
+    tags.append(f"steered={near}")
     if not result["ok"]:
         if result.get("stage") != "funding":
-            # the change output may have made an output set the later roles refuse only if the world itself was refused
-            raise Violation(f"funding:funded-world-refused:{result.get('stage')}", f"{result.get('error')} kinds={kinds} expect={expect}")
-        if not result["error"].startswith("BTClibValueError"):
+            return Outcome(False, tuple(tags) + (f"funded-world-refused:{result.get('stage')}",))  # a later role's refusal: C10's to report
+        if "BTClibValueError" not in result.get("error_classes", [result["error"].split(":")[0]]):
             raise Violation("funding:refusal-is-not-a-value-error", result["error"])
-        if expect[0] != "refuse":
+        if ("refuse", None, None) not in allowed:
             raise Violation(f"funding:refused-what-the-inputs-cover:{expect[0]}", f"{result['error']}; remainder {remainder} fee0 {fee0} expect {expect} kvb {kvb}")
         return Outcome(near, tuple(tags) + ("refused",))
     f = result["funded"]
-    if expect[0] == "refuse":
+    if allowed == {("refuse", None, None)}:
         raise Violation("funding:funded-what-the-inputs-do-not-cover", f"remainder {remainder} < owed {fee0}; got fee {f['fee']} change {f['change']}")
     t, weight = _actual(result)
     vsize = ceil_div(weight, 4)
@@ -396,20 +406,21 @@ def check_funding(case):
         if len(t["vout"]) != n_pay or f["change"] != 0:
             raise Violation("funding:no-change-index-but-an-extra-output", f"{len(t['vout'])} outputs for {n_pay} payments, change {f['change']}")
     else:
-        if f["change_index"] != n_pay or len(t["vout"]) != n_pay + 1:
+        if not 0 <= f["change_index"] <= n_pay or len(t["vout"]) != n_pay + 1:
             raise Violation("funding:change-index", f"index {f['change_index']} outputs {len(t['vout'])} payments {n_pay}")
         out = t["vout"][f["change_index"]]
         if out["spk"] != change or out["value"] != f["change"]:
             raise Violation("funding:change-output-is-not-the-change", f"{out} vs script {change} amount {f['change']}")
         if out["value"] < dust_model(bytes.fromhex(change), dust_kvb):
             raise Violation("funding:dust-change-created", f"change {out['value']} < dust {dust_model(bytes.fromhex(change), dust_kvb)} for {change} at {dust_kvb}")
-    # payments untouched
+    # payments untouched (the outputs other than the change, in order)
+    paid = [o for k, o in enumerate(t["vout"]) if k != f["change_index"]]
     for k, o in enumerate(world["outputs"]):
-        if t["vout"][k]["value"] != o["amount"]:
-            raise Violation("funding:payment-amount-changed", f"output {k}: {t['vout'][k]['value']} vs {o['amount']}")
+        if paid[k]["value"] != o["amount"]:
+            raise Violation("funding:payment-amount-changed", f"output {k}: {paid[k]['value']} vs {o['amount']}")
     # exact decision
     got = ("change", f["fee"], f["change"]) if f["change_index"] is not None else ("nochange", f["fee"], 0)
-    if got != expect:
+    if got not in allowed:
         raise Violation(f"funding:decision:{expect[0]}->{got[0]}", f"expected {expect} got {got}; remainder {remainder} w0 {w0} kvb {kvb} dust_kvb {dust_kvb} change {change}")
     return Outcome(near, tuple(tags) + tuple(f"kind={k}" for k in kinds))
 
@@ -558,6 +569,12 @@ def _check_direct(case):
             expect = ("refuse", None, None)
         else:
             expect = ("nochange", remainder, 0) if remainder >= fee0 else ("refuse", None, None)
+    plain = ("refuse", None, None) if n_out == 0 or remainder < fee0 else ("nochange", remainder, 0)
+    allowed = {expect}  # as in funding_worlds: on the threshold, and for a change script whose threshold is zero, more than one decision is right
+    if expect[0] == "change" and (expect[2] == dust or dust == 0):
+        allowed.add(plain)
+    if expect[0] == "change" and dust == 0:
+        allowed.add(("refuse", None, None))
     if total_in > MAX_MONEY or total_out > MAX_MONEY:
         expect = ("any", None, None)
     defect = case["defect"] if target == "defect" else None
@@ -573,7 +590,8 @@ def _check_direct(case):
         inputs = []
     outputs = [TxOut(a, s, check_validity=False) for a, s in zip(out_amounts, out_spks)]
     tags = [f"expect={expect[0]}", f"target={target}", f"n_in={'253' if n_in >= 253 else ('252' if n_in == 252 else '<=5')}", f"n_out={'252+' if n_out >= 252 else n_out}", f"spelling={case['rate_spelling']}", f"defect={defect}"]
-    near = target in ("dust", "fee") and abs(case["delta"]) <= 2
+    near = any(abs(remainder - thr) <= 2 for thr in ([fee0] + ([fee1 + dust] if change is not None else [])))
+    tags.append(f"steered={near}")
     try:
         rate = _rate(case)
     except LIBEXC as e:
@@ -583,12 +601,12 @@ def _check_direct(case):
     try:
         funded = build_psbt(inputs, outputs, rate, None if change is None else bytes.fromhex(change), tx_version=case["tx_version"], lock_time=case["lock_time"], dust_fee_rate=FeeRate(sats_per_kvbyte=dust_kvb))
     except BTClibValueError as e:
-        if defect is not None or expect[0] in ("refuse", "any"):
+        if defect is not None or expect[0] == "any" or ("refuse", None, None) in allowed:
             return Outcome(near, tuple(tags) + ("refused",))
         raise Violation(f"direct:refused-what-the-inputs-cover:{expect[0]}", f"{e}; remainder {remainder} fee0 {fee0} expect {expect}")
     if defect is not None:
         raise Violation(f"direct:defective-inputs-funded:{defect}", f"fee {funded.fee} change {funded.change}")
-    if expect[0] == "refuse":
+    if allowed == {("refuse", None, None)}:
         raise Violation("direct:funded-what-the-inputs-do-not-cover", f"remainder {remainder} owed {fee0} n_out {n_out}; fee {funded.fee} change {funded.change}")
     psbt = funded.psbt
     tx = psbt.tx
@@ -598,8 +616,10 @@ def _check_direct(case):
         if got_outs != pays or funded.change != 0:
             raise Violation("direct:outputs-without-change", f"{got_outs[:4]} vs {pays[:4]} change {funded.change}")
     else:
-        if funded.change_index != n_out or got_outs[:-1] != pays or got_outs[-1] != (funded.change, change):
-            raise Violation("direct:outputs-with-change", f"index {funded.change_index} last {got_outs[-1]} change {funded.change}")
+        # the change is where change_index says it is (its position is the builder's choice); the payments are the other outputs, in order
+        ci = funded.change_index
+        if not 0 <= ci <= n_out or len(got_outs) != n_out + 1 or got_outs[:ci] + got_outs[ci + 1:] != pays or got_outs[ci] != (funded.change, change):
+            raise Violation("direct:outputs-with-change", f"index {funded.change_index} outputs {got_outs[:4]} change {funded.change}")
         if funded.change < dust_model(bytes.fromhex(change), dust_kvb):
             raise Violation("direct:dust-change-created", f"{funded.change} < {dust_model(bytes.fromhex(change), dust_kvb)} for {change} at {dust_kvb}")
     if total_in != sum(v for v, _ in got_outs) + funded.fee:
@@ -618,7 +638,7 @@ def _check_direct(case):
         raise Violation("direct:fee-below-rate-at-worst-case-size", f"fee {funded.fee} < {ceil_div(kvb * ceil_div(want_w, 4), 1000)}")
     if expect[0] != "any" and est == want_w:
         got = ("change", funded.fee, funded.change) if funded.change_index is not None else ("nochange", funded.fee, 0)
-        if got != expect:
+        if got not in allowed:
             raise Violation(f"direct:decision:{expect[0]}->{got[0]}", f"expected {expect} got {got}; remainder {remainder} kvb {kvb} dust_kvb {dust_kvb} change {change}")
         tags.append("estimate=hand-count")
     return Outcome(near, tuple(tags))
@@ -737,7 +757,10 @@ def _check_fee(case):
         except (BTClibValueError, BTClibTypeError):
             tags.append(f"refused={bad}")
         else:
-            raise Violation(f"fee:accepted:{bad}", f"returned {out!r}")
+            if bad == "anc-fee-over":
+                tags.append("answered=anc-fee-over")  # no docstring promises a refusal of ancestor fees above the money range
+            else:
+                raise Violation(f"fee:accepted:{bad}", f"returned {out!r}")
     return Outcome(inexact, tuple(tags))
 
 
@@ -786,6 +809,9 @@ def _check_amount(case):
         try:
             got = sats_from_btc(spelled)
         except LIBEXC as e:
+            if how in ("str-padded", "float"):
+                # zeros past the eighth decimal and binary floats are spellings a strict reader may decline ("more than 8 decimals", "never floats")
+                return Outcome(True, (*tags, f"declined={how}"))
             raise Violation(f"amount:exact-amount-refused:{how}", f"{spelled!r}: {type(e).__name__}: {e}")
         if got != sats or type(got) is not int:
             raise Violation(f"amount:sats_from_btc:{how}", f"{spelled!r} -> {got!r}, want {sats}")
